@@ -15,7 +15,7 @@ EXPLANATION = (
     "probe renders must equal those of fresh instances on which only the configuration steps addressed to them are replayed, a fresh default "
     "instance must behave like a pristine one, the shared preset table must be unchanged, and references resolve only through a shared env."
 )
-BOUNDS = {"quick": "all histories of 2 steps over the 14-call menu (solver-chosen), concrete documents", "thorough": "all histories of 3 steps; histories of 2 steps starting with a parse/render step with 1 free character in the processed document"}
+BOUNDS = {"quick": "all histories of 3 steps over the 14-call menu (solver-chosen), concrete documents", "thorough": "all histories of 4 steps; histories of 2 steps starting with a parse/render step with 1 free character in the processed document"}
 OUTSIDE = "histories longer than 3; plugins holding their own state; concurrent use (C13)"
 ASSUMPTIONS = ["probe documents are fixed (they exercise references, links, containers, emphasis, tables, fences, typographic text)"]
 
@@ -87,9 +87,16 @@ def _run(params, values):
     a = values.get("a", "z")
     docA = "*x* [r] " + a + " `y`\n\n- " + a + "\n"
     trace = []
+    import contextlib
+
+    # concrete documents: every call below is a concrete computation once the step selector is realised -> native speed
+    native = contextlib.nullcontext if params.get("free_char") else no_tracing
+    sel = [realize(values[f"s{s}"]) for s in range(params["k"])]
     try:
+        _native_cm = native()
+        _native_cm.__enter__()
         for s in range(params["k"]):
-            st = realize(values[f"s{s}"])
+            st = sel[s]
             trace.append(st)
             if st == 0:
                 x.render(docA)
@@ -149,7 +156,9 @@ def _run(params, values):
         if "<a href" in x.render("[r]\n") or "<a href" in y.render("[s]\n", {}):
             recs.append({"key": "reference-leak-without-env"})
     except Exception as e:
+        _native_cm.__exit__(None, None, None)
         return [exc_record(e, "history")], "raised"
+    _native_cm.__exit__(None, None, None)
     return recs, [trace, outs]
 
 
@@ -166,9 +175,9 @@ def jobs(tier, seed):
     # thorough: histories of 3 steps, and histories of 2 steps with a free character in the processed document
     for s0 in range(STEPS):
         if tier == "quick":
-            jobs.append({"harness": "history", "params": {"k": 2, "first": s0}, "weight": 5, "cpu_cap": 3000, "wall_cap": 4000})
+            jobs.append({"harness": "history", "params": {"k": 3, "first": s0}, "weight": 5, "cpu_cap": 3000, "wall_cap": 4000})
         else:
-            jobs.append({"harness": "history", "params": {"k": 3, "first": s0}, "weight": 30, "cpu_cap": 9000, "wall_cap": 10000})
+            jobs.append({"harness": "history", "params": {"k": 4, "first": s0}, "weight": 30, "cpu_cap": 9000, "wall_cap": 10000})
             if s0 in (0, 3, 9, 11):
                 jobs.append({"harness": "history", "params": {"k": 2, "first": s0, "free_char": True}, "weight": 60, "cpu_cap": 9000, "wall_cap": 10000})
     return jobs
